@@ -4,8 +4,10 @@ package main
 // must return, report an error or panic within the deterministic loop-tick budget.
 
 import (
+	"encoding/json"
 	"fmt"
 	"math"
+	"os"
 	"strings"
 
 	ad "github.com/pbenner/autodiff"
@@ -146,6 +148,10 @@ func runMatrix(cs *MCase, budget int64) (status, label string, ticks int64) {
 			}
 			if cs.has("Vec=false") {
 				args = append(args, eigensystem.ComputeEigenvectors{Value: false})
+			}
+			if cs.has("QrSym") {
+				// options eigensystem does not know are handed on to qrAlgorithm.Run
+				args = append(args, qrAlgorithm.Symmetric{Value: true})
 			}
 			_, _, err = eigensystem.Run(a, args...)
 		case "svd":
@@ -301,6 +307,14 @@ func (s *stager) matrix(cs *MCase, rank int64) {
 		}
 		c.Count(fmt.Sprintf("matrix_ticks<1e%d", d), 1)
 		c.Count("kiloticks:"+cs.Routine, (ticks+500)/1000)
+		// debugging knob: C20_DEBUG_SLOW=<file prefix> lists the cases above half the stage-1 budget
+		if pre := os.Getenv("C20_DEBUG_SLOW"); pre != "" && ticks > budgetStage1(n)/2 {
+			if f, err := os.OpenFile(fmt.Sprintf("%s.%d", pre, os.Getpid()), os.O_APPEND|os.O_CREATE|os.O_WRONLY, 0644); err == nil {
+				b, _ := json.Marshal(cs)
+				fmt.Fprintf(f, "SLOW %d %s\n", ticks, b)
+				f.Close()
+			}
+		}
 		if !trivialInput(cs) {
 			c.Nontrivial(1)
 		}
@@ -369,7 +383,7 @@ func plansFor(sym bool, r, c int, mode int) []mplan {
 		if sym {
 			ps = append(ps,
 				mplan{"qrAlgorithm", []string{"Sym", "Sym,Eps", "Sym,U"}},
-				mplan{"eigensystem", []string{"Sym"}},
+				mplan{"eigensystem", []string{"Sym", "Sym,QrSym"}},
 				mplan{"tridiag", []string{""}},
 				mplan{"cholesky", []string{"", "LDL", "LDL,ForcePD"}},
 				mplan{"matrixInverse", []string{"PD"}},
@@ -555,6 +569,15 @@ func termMatrices(c *vf.Ctx, idx *int64) {
 			runT(u, planLean, elems2[:1], forceClass, rank+int64(k)+1)
 		}
 		c.Count("transformed-variants(negated/scaled/sign-similar)", int64(len(xs)))
+	}
+	// debugging knob: C20_MATRIX=tiny|composites runs only that family
+	switch os.Getenv("C20_MATRIX") {
+	case "tiny":
+		termTiny(c, idx, runT, runX)
+		return
+	case "composites":
+		termComposites(c, idx, runT, runX)
+		return
 	}
 	// 1. lattices
 	for _, l := range mlattices(c.Thorough()) {
